@@ -131,13 +131,11 @@ extern "C" void c20trace_run()
   }
 }
 
-extern "C" void c20img_run()
+static void write_one(const C20IPlan *p, const std::string &path)
 {
   using namespace rkcommon::utility;
   using namespace rkcommon::math;
-  const C20IPlan *p = c20i_plan();
   int w = p->w, h = p->h, seed = p->seed;
-  std::string path = c20_path();
   switch (p->format) {
   case 0:
   case 1: {
@@ -207,6 +205,21 @@ extern "C" void c20img_run()
     delete[] px;
     break;
   }
+  }
+}
+
+extern "C" void c20img_run()
+{
+  int n = c20i_count();
+  if (n <= 1) {
+    write_one(c20i_plan_n(0), c20_path_n(0));
+  } else {
+    // every thread writes its own image to its own file
+    std::vector<std::thread> ths;
+    for (int i = 0; i < n; i++)
+      ths.emplace_back([i]() { write_one(c20i_plan_n(i), c20_path_n(i)); });
+    for (auto &t : ths)
+      t.join();
   }
   c20i_written();
 }
